@@ -20,6 +20,13 @@ def _add(c):
     return c
 
 
+def _conc(v, lo, hi):
+    for k in range(lo, hi + 1):
+        if v == k:
+            return k
+    raise AssertionError('out of range')
+
+
 def install_tape(env, kw, n):
     if env.model:
         env.nondet.install([kw[f'tape{i}'] for i in range(n)])
@@ -171,6 +178,8 @@ def body_hierarchy_sort(env, o0, o1, o2, i0, i1, i2, asc, **kw):
     """Hierarchical labels are ordered lexicographically by depth."""
     sf = env.sf
     install_tape(env, kw, 3)
+    o0, o1, o2 = [_conc(v, 0, 1) for v in (o0, o1, o2)]
+    i0, i1, i2 = [_conc(v, 0, 2) for v in (i0, i1, i2)]   # labels are hashed by from_labels: bounded case split up front
     tuples = [(o0, i0), (o1, i1), (o2, i2)]
     ih = sf.IndexHierarchy.from_labels(tuples)
     s = sf.Series(env.array([7, 8, 9], 'int64'), index=ih)
@@ -185,6 +194,6 @@ _add(Cond('series_sort_index_hierarchy', [(p, 'int') for p in ('o0', 'o1', 'o2',
         ranges={p: (0, 1) for p in ('o0', 'o1', 'o2')} | {p: (0, 2) for p in ('i0', 'i1', 'i2')},
         pre=['(o0, i0) != (o1, i1)', '(o0, i0) != (o2, i2)', '(o1, i1) != (o2, i2)',
              'not (o0 == o2 and o0 != o1)'],
-        functions=['Series.sort_index', 'IndexHierarchy.sort'],
+        functions=['Series.sort_index', 'sort_index_for_order', 'IndexHierarchy._extract_iloc'],
         bounds='depth-2 hierarchical index of 3 distinct tuples in tree order, outer labels in 0..1, inner in 0..2',
         route='Series.sort_index on an IndexHierarchy: lexicographic by depth', timeout=300))
